@@ -1,5 +1,5 @@
 """C06 — SharedFuture: every observer sees the one value once, never before it exists (structural clauses)."""
-from rules import lib_core, lib_exec, lib_order, lib_ready
+from rules import lib_core, lib_exec, lib_order, lib_ready, lib_shape
 
 CB = 'yaclib::detail::BaseCore::_callback'
 
@@ -21,7 +21,12 @@ def run(ctx):
                    minimum=4)
     ra = ctx.rule('R-AFTERRELEASE', 'an observer reads the shared value only while it still owns its reference '
                   '(Retire, SetResultImpl<Shared>, the combinators\' Consume)', minimum=10)
+    rcm = ctx.rule('R-COMMIT', 'SharedPromise::Set constructs the Result (may throw) before it gives the handle away',
+                   minimum=2)
+    rsh = ctx.rule('R-SHAPE', 'the shared core runs every subscribed callback exactly once and loses none (shape analysis, all list lengths)', minimum=2)
     for cfg, fb in sorted(fbs.items()):
+        lib_shape.check(ctx, fb, rsh, lambda qn: 'SetResultImpl' in qn, 2)
+        lib_core.check_commit(ctx, fb, rcm)
         lib_core.check_after_release(ctx, fb, ra, lambda f: any(x in f.file for x in (
             'shared_core', 'unique_core', 'result_core', 'base_core', 'when/', 'drop_core', 'wait_event')))
         seen = 0
